@@ -198,7 +198,7 @@ def run(case):
                 bad = "fill(%s) raised %r" % (op["val"], a)
             else:
                 for k_ in md:
-                    md[k_] = op["val"]
+                    md[k_] = int(op["val"]) if op.get("trunc") else op["val"]        # (trunc: a table holding integers per key takes the whole part, as a numpy integer array does)
         elif name == "contains":
             q = op["keys"]
             qa = carry(q, kd, op, op.get("qdtype"))
@@ -620,6 +620,14 @@ def directed():
                 for pre in ([], [{"op": "fill", "table": "t", "val": 9}], [{"op": "setv", "table": "t", "keys": list(keys), "vals": [6]}], [{"op": "getv", "table": "t", "keys": keys[:1]}]):
                     yield {"keys": keys, "kdtype": kd, "mod": rng.choice([None, 7, 1]), "init": init, "vdtype": vd_, "nonkeys": [99, 100], "style": "small",
                            "ops": pre + [{"op": "eq", "table": "t", "differ": None}, {"op": "zeros_like", "table": "t"}, {"op": "eq", "table": "d1", "differ": None}, {"op": "eq", "table": "t", "differ": 0}]}
+    # a table that holds an integer PER KEY is filled with a number that has a fraction: every way of asking gives the whole part, before and after a later write
+    for kd in ("int64", None, "uint8"):
+        for keys in ([3, 7, 11, 20, 41], [5, 6]):
+            for fv_ in (2.75, -1.5, 7.25):
+                yield {"keys": keys, "kdtype": kd, "mod": rng.choice([None, 7, 1]), "init": list(range(10, 10 + len(keys))), "vdtype": "int64", "nonkeys": [99, 100], "style": "small",
+                       "ops": [{"op": "fill", "table": "t", "val": fv_, "trunc": True}, {"op": "get1", "key": keys[0], "table": "t", "py": True}, {"op": "get1", "key": keys[-1], "table": "t", "py": False},
+                               {"op": "getv", "table": "t", "keys": keys[:2]}, {"op": "to_dict", "table": "t"}, {"op": "items", "table": "t"},
+                               {"op": "set1", "table": "t", "keys": [keys[0]], "vals": [55]}, {"op": "get1", "key": keys[-1], "table": "t", "py": True}, {"op": "getv", "table": "t", "keys": keys}]}
     # 12..40 keys spread over a huge range; membership queries in which an absent key occurs several times
     for nk in (12, 20, 25, 40):
         keys = [(i * 3 + 1) * 2 ** 40 + i * 7 for i in range(nk)]
